@@ -113,6 +113,8 @@ static struct { const char *name; opfn fn; int forked; } OPS[] = {
     {"HASH", op_hash, 0},
     {"HASHO", op_hash, 0},
     {"HASHBIG", op_hashbig, 0},
+    {"HASHSEQ", op_hashseq, 0},
+    {"HASHSEQO", op_hashseq, 0},
     {"OPEN", op_open, 1},
     {"META", op_meta, 1},
     {"OPENM", op_openm, 1},
